@@ -845,6 +845,22 @@ func (env *Env) evalCall(n *Call) (TV, error) {
 			}
 			return TV{t, ty}, nil
 		}
+		// no call encoded so far: for a module function the type comes from its signature
+		if fn := e.P.Funcs[full]; fn != nil && pfx != "arg:" {
+			if fc := e.P.Contracts.Funcs[full]; fc != nil {
+				res := fn.Signature.Results()
+				for i := 0; i < res.Len() && i < len(fc.Returns); i++ {
+					if fc.Returns[i] == flattenName(n.Args[1]) {
+						ty := res.At(i).Type()
+						e.famSort["ghost:"+gk] = e.S.sortOf(ty)
+						e.ghostTy[gk] = ty
+						t := e.declare("ghost:"+gk, e.S.sortOf(ty))
+						e.ghostEntry[gk] = t
+						return TV{t, ty}, nil
+					}
+				}
+			}
+		}
 		return TV{}, fmt.Errorf("%s: nothing recorded for %s (no call on this path?)", n.Fn, gk)
 	case "old":
 		if len(n.Args) != 1 {
